@@ -110,8 +110,8 @@ def work(desc):
         for k, v in r["rej"].items():
             total["rej"][k] = total["rej"].get(k, 0) + v
         total["viol"].extend(r["viol"])
-        if len(total["samples"]) < 2:
-            total["samples"].extend(r["samples"])
+        have = {x["cohdl"] for x in total["samples"]}
+        total["samples"].extend(x for x in r["samples"] if x["cohdl"] not in have)
     _drop_definition_cache()
     return total
 
@@ -125,6 +125,7 @@ def work_chunk(task):
 
     viol = []
     samples = []
+    sample_status = set()
     rejected_kinds = {}
     indexed = list(enumerate(task))
     refs = {}
@@ -157,7 +158,8 @@ def work_chunk(task):
         elif status == "rejected":
             k = (err or "?").split(":", 1)[0]
             rejected_kinds[k] = rejected_kinds.get(k, 0) + 1
-        if status in ("match", "mustrej_ok") and len(samples) < 2:
+        if status in ("match", "mustrej_ok") and status not in sample_status:
+            sample_status.add(status)
             samples.append({"key": c["key"], "call": c["call"], "defs": c["defs"][:300],
                             "cpython": cm.show(ref[1]) if ref[0] == "val" else f"{ref[1]}: {ref[2]}",
                             "cohdl": "equal value" if status == "match" else "rejected"})
@@ -226,9 +228,9 @@ def main(run: Run):
         for k, n in res["rej"].items():
             rej_kinds[k] = rej_kinds.get(k, 0) + n
         for s in res["samples"]:
-            fam = s["key"].split("/", 1)[0]
-            if run.counters.get("_s_" + fam, 0) < 2:
-                run.count("_s_" + fam)
+            tag = "_s_" + s["key"].split("/", 1)[0] + "_" + s["cohdl"]
+            if run.counters.get(tag, 0) < 1:
+                run.count(tag)
                 run.sample(s, force=True)
         for v in res["viol"]:
             run.count("violating_cases")
